@@ -636,7 +636,7 @@ func writeRouteBlock(b *bytes.Buffer, r Route) {
 			formatValue(basic.Pass, basic.PassQuoted),
 		)
 	}
-	if r.AuthForward != nil && strings.TrimSpace(r.AuthForward.URL) != "" {
+	if r.AuthForward != nil {
 		if shouldWriteRouteAuthForwardBlock(*r.AuthForward) {
 			writeRouteAuthForwardBlock(b, *r.AuthForward)
 		} else {
